@@ -129,7 +129,7 @@ func scenarioC08(rc *RunCtx) *Violation {
 	rc.Sample("perturbation", kind)
 	rc.Sample("reference_outputs", ref.paths())
 
-	variants := 4
+	variants := 5
 	if rc.Tier == "thorough" {
 		variants = 10
 	}
@@ -142,7 +142,7 @@ func scenarioC08(rc *RunCtx) *Violation {
 		mode := g.n(5)
 		opts := mkOpts(pi)
 		var results []api.BuildResult
-		so := SimOpts{Disk: d}
+		so := SimOpts{Disk: d, NoLowest: true}
 		modeName := ""
 		switch mode {
 		case 0, 1:
